@@ -10,7 +10,7 @@ import corr  # noqa
 from lib import f32, f2h, h2f  # noqa
 
 MODULES = ["InovesaModel.Props.C04", "InovesaModel.Props.C01FP", "InovesaModel.Props.TieMain", "InovesaModel.Props.TieRuler", "InovesaModel.Props.TiePhysics",
-           "InovesaModel.Props.TieMoments"]     # the reported length and spread are what PhaseSpace::variance computes
+           "InovesaModel.Props.TieMoments", "InovesaModel.Props.TieFPApply"]     # the reported length and spread are what PhaseSpace::variance computes
 LEVEL = "proof"
 U = 2.0 ** -24
 
